@@ -3,6 +3,7 @@
 package main
 
 import (
+	"errors"
 	"fmt"
 	"reflect"
 	"sort"
@@ -225,14 +226,36 @@ func (sc *c04Scn) delStep(u *c04User) {
 	if hard {
 		body["hard"] = true
 	}
+	want, valid := sc.expectedDelSet(ranges)
+	// every fifth well-formed, permitted request meets a store which fails the deletion itself (its first write):
+	// the request fails, nothing is deleted and no transaction number is used up
+	faulty := valid && subscribed && (canR || canD) && len(want) > 0 && len(want) <= 1024 && rng.Intn(5) == 0
+	fired := false
+	if faulty {
+		vfRec.setFault(func(c *vfmem.Call) error {
+			if c.Op == "MessageDeleteList" && !fired {
+				fired = true
+				return errors.New("vf injected failure at MessageDeleteList")
+			}
+			return nil
+		})
+	}
 	f := u.c.del(u.name, "msg", body)
+	vfRec.setFault(nil)
 	e.vfQuiesce()
-	sc.logf("%s del hard=%v %v -> %s", u.role, hard, vfCompact(ranges), codeStr(f))
+	sc.logf("%s del hard=%v %v (store failure injected: %v) -> %s", u.role, hard, vfCompact(ranges), fired, codeStr(f))
 	if f == nil {
 		r.Violation("del-unanswered", "del msg request unanswered", sc.wit(nil))
 		return
 	}
-	want, valid := sc.expectedDelSet(ranges)
+	if fired {
+		r.Hit("del_store_failure_uses_no_number")
+		if f.code() < 400 {
+			r.Violation("failed-del-acknowledged", fmt.Sprintf("delete whose store call failed was answered %d", f.code()), sc.wit(map[string]any{"ranges": ranges}))
+		}
+		// the model is left unchanged: the following history / deletion-log / transaction-number clauses judge the rest
+		return
+	}
 	r.Eval(fmt.Sprintf("del/%s/hard=%v/valid=%v/R=%v/D=%v/n=%d", sc.kind, hard, valid, canR, canD, len(ranges)))
 	writes := vfRec.writesSince(mark)
 	if !subscribed {
